@@ -10,7 +10,7 @@ import (
 
 func init() {
 	register(&propDef{
-		ID: "C06", Level: "other", Run: withShared(runC06, share{"C04", runC04, ruleIs("no-offers-outside-action-wait", "opening-seat")}, share{"C10", runC10, ruleIs("enumeration-complete")}),
+		ID: "C06", Level: "other", Run: withShared(runC06, share{"C04", runC04, ruleIs("no-offers-outside-action-wait", "opening-seat")}, share{"C10", runC10, ruleIs("enumeration-complete")}, share{"C14", runC14, ruleIs("street-table")}),
 		Explanation: "Extracts the lifecycle machine from the code (handler table from the dispatcher's switch, per-function emit outcomes from path summaries) and decides: the two event symbol tables are total on the declared events and mutually inverse; every string compared with Status.CurrentEvent anywhere in the module is an event symbol; every emit is a tail call; every non-wait handler emits on every path (its only failure exits are the enumerated, separately excluded ones); every wait event has a guarded resuming operation that emits a non-wait successor and operations' guards are pairwise distinct wait symbols; the street switch is exactly preflop→flop→turn→river→completed; Start's four refusing tests dominate the first emit; the settlement result is stored before the terminal event and nothing accepts the terminal event. Does NOT decide termination of the betting loop or absence of panics in handlers.",
 		Trusted:     commonTrusted,
 		Assumptions: []string{"operations are the methods of table.Backend (the repo's own driver-facing interface)", "a handler's `if err != nil` edge is dead when the callee's every return is the nil constant (computed)"},
